@@ -214,3 +214,31 @@ Lemma cr_example :
   str_width t [65; 13; 66] = str_width t [65; 66] + (6 * 2 + 1) /\
   render_at (g0 40 10) t 1 1 [65; 13; 66] (d0 40 10) = render_at (g0 40 10) t 1 1 [65; 66] (d0 40 10).
 Proof. vm_compute. split; reflexivity. Qed.
+
+(* ---- stateful use: one RenderText step of ANY operation sequence on one image object.
+   StrWidth / LineHeight are functions of the text state in force at that moment, so whatever
+   setters and measurements came before, the ink of this step lies in the box they report now. ---- *)
+Lemma set_cursor_id t : set_cursor t (tcx t) (tcy t) = t.
+Proof. destruct t; reflexivity. Qed.
+
+Theorem ink_in_box_step (i : img) (s : list Z) :
+  wf_img i -> twrap (it i) = false -> sizes_ok (it i) -> lh (it i) < 4294967296 ->
+  has_lf (range_bytes s) = false ->
+  let i' := run_op i (OText s) in
+  wf_img i' /\
+  forall c r, 0 <= c < 8 * gwib (ig i) -> 0 <= r < gH (ig i) ->
+    px (gwib (ig i)) (idata i') c r <> px (gwib (ig i)) (idata i) c r ->
+    in_box (tcx (it i)) (tcy (it i)) (str_width (it i) s) (tsh (it i)) (line_height (it i))
+           (c - gbx (ig i)) (r - gby (ig i)) = true.
+Proof.
+  intros Hwf Hwr Hs Hl Hn. cbv zeta.
+  destruct (ink_in_box (ig i) (it i) (tcx (it i)) (tcy (it i)) s (idata i) Hwr Hs Hl Hwf Hn) as [W E].
+  unfold render_at in W, E. rewrite set_cursor_id in W, E.
+  assert (Ed : idata (run_op i (OText s)) = snd (render_text (ig i) s (it i, idata i))).
+  { simpl run_op. destruct (render_text (ig i) s (it i, idata i)) as [t' d']. reflexivity. }
+  assert (Eg : ig (run_op i (OText s)) = ig i).
+  { simpl run_op. destruct (render_text (ig i) s (it i, idata i)) as [t' d']. reflexivity. }
+  split.
+  - unfold wf_img. rewrite Eg, Ed. exact W.
+  - intros c r Hc Hr Hne. rewrite Ed in Hne. apply (E c r Hc Hr Hne).
+Qed.
